@@ -523,6 +523,23 @@ def REACH():
 # ----------------------------------------------------------------------------- workload
 def run(ctx):
     rng = ctx.rng
+    # objects holding very many values (trajectories: where a batched / block-wise evaluation would replace the per-value loop)
+    k_ = 0
+    for c in ALL:
+        tw = c in ('Twist2', 'Twist3')
+        for law in ['divseq', 'powseq', 'prodseq', 'mulseq', 'antiseq']:
+            if (tw and law in ('divseq', 'powseq')) or (c == 'UnitQuaternion' and law == 'prodseq'):
+                continue
+            for m in ([127, 128, 129, 256, 257] if law != 'prodseq' else [128]) + [int([2000, 2048, 2500][rng.integers(3)])] * ctx.scale(1, 3):
+                k_ += 1
+                if not ctx.mine(k_):
+                    continue
+                if law == 'prodseq' and m > 300:
+                    continue
+                shape = int(rng.integers(3))
+                xs = [operand(rng, c) for _ in range(m if shape != 1 else 1)]
+                ys = [operand(rng, c) for _ in range(m if shape != 2 else 1)]
+                drive(RUNNERS, ctx, 'law', dict(cls=c, law=law, ops=xs, ops2=ys, n=int(rng.integers(-3, 4))))
     for _ in range(ctx.scale(9000, 300000)):
         c = ALL[rng.integers(len(ALL))]
         tw = c in ('Twist2', 'Twist3')
